@@ -291,6 +291,20 @@ theorem C01_no_foreign {g : GSys} (hI : g.GInv) {c : Nat} {x : Conn} {a σ m : S
     obtain ⟨rfl, ⟨rfl, rfl, rfl, rfl, rfl⟩, rfl⟩ := hf
     exact ⟨rfl, rfl, r, hr'.1, hr'.2.1, hr'.2.2, rfl, rfl, rfl, rfl, rfl⟩
 
+/-- every frame of an accepted `open` is addressed to the opener: nothing goes to anybody else -/
+theorem C01_open_private {g : GSys} (hI : g.GInv) {c : Nat} {x : Conn} {a σ m : String} (t : Time)
+    (id : Val) (hx : g.sys.findConn c = some x) (ha : x.app = some a) (hσ : x.side = some σ)
+    (hm : x.mailbox = none) (hok : g.sys.db.openRes a m σ = .ok) {c' : Nat} {f : Frame} {b : Bool}
+    (hf : Event.frame c' f b ∈ (g.step (.recv c t id (.open_ (some m)))).sys.out) : c' = c := by
+  obtain ⟨⟨l, hl, ho⟩, _⟩ := C01_open_replays hI t id hx ha hσ hm hok
+  rw [ho] at hf
+  simp only [List.mem_append, List.mem_singleton, List.mem_map] at hf
+  rcases hf with (hf | hf) | ⟨r, _, hf⟩
+  · cases hf; rfl
+  · obtain ⟨w, hw⟩ := hl _ hf; cases hw
+  · simp only [replayFrame, Event.frame.injEq] at hf
+    exact hf.1.symm
+
 /-- **C01 (fresh incarnation)**: opening a mailbox id whose row does not exist (never created, or
     deleted by the last close / by expiry) replays nothing: the output is the ack and commits -/
 theorem C01_fresh_incarnation_empty {g : GSys} (hI : g.GInv) {c : Nat} {x : Conn} {a σ m : String}
@@ -799,6 +813,7 @@ theorem C01_replay_exact' (cfg : Cfg) (rb : Time) (ops : List Op)
 #print axioms C01_open_replays
 #print axioms C01_open_replays_perm
 #print axioms C01_no_foreign
+#print axioms C01_open_private
 #print axioms C01_fresh_incarnation_empty
 #print axioms C01_live_invariant
 #print axioms C01_table_is_live
